@@ -17,6 +17,62 @@ pub broadcast proof fn axiom_slice_eq(a: &[u8], b: &[u8])
 pub broadcast proof fn axiom_slice_obeys()
     ensures #[trigger] <[u8] as PartialEqSpec<[u8]>>::obeys_eq_spec(),
 {}
+/// T1': `==` on byte arrays, byte vectors, and String vs str is equality of contents
+#[verifier::external_body]
+pub broadcast proof fn axiom_arr_eq<const N: usize>(a: &[u8; N], b: &[u8; N])
+    ensures #[trigger] PartialEqSpec::eq_spec(a, b) == (a@ == b@),
+{}
+#[verifier::external_body]
+pub broadcast proof fn axiom_arr_obeys<const N: usize>()
+    ensures #[trigger] <[u8; N] as PartialEqSpec<[u8; N]>>::obeys_eq_spec(),
+{}
+#[verifier::external_body]
+pub broadcast proof fn axiom_vec_eq(a: &Vec<u8>, b: &Vec<u8>)
+    ensures #[trigger] PartialEqSpec::eq_spec(a, b) == (a@ == b@),
+{}
+#[verifier::external_body]
+pub broadcast proof fn axiom_vec_obeys()
+    ensures #[trigger] <Vec<u8> as PartialEqSpec<Vec<u8>>>::obeys_eq_spec(),
+{}
+/// T5
+#[verifier::external_body]
+pub broadcast proof fn axiom_string_str_eq(a: &String, b: &str)
+    ensures #[trigger] PartialEqSpec::<str>::eq_spec(a, b) == (a@ == b@),
+{}
+#[verifier::external_body]
+pub broadcast proof fn axiom_string_str_obeys()
+    ensures #[trigger] <String as PartialEqSpec<str>>::obeys_eq_spec(),
+{}
+/// T6: lossy UTF-8 decoding reads "v4" exactly for the two bytes 0x76 0x34
+#[verifier::external_body]
+pub broadcast proof fn axiom_lossy_v4(b: Seq<u8>)
+    ensures
+        (#[trigger] lossy(b) == seq!['v', '4']) <==> b == seq![0x76u8, 0x34u8],
+        (utf8(lossy(b)) == seq![0x76u8, 0x34u8]) <==> b == seq![0x76u8, 0x34u8],
+{}
+/// T1'': a byte slice is determined by its contents
+#[verifier::external_body]
+pub broadcast proof fn axiom_slice_ext(a: &[u8], b: &[u8])
+    ensures #[trigger] a@ == #[trigger] b@ ==> a == b,
+{}
+/// `Bytes: From<Vec<u8>>` (reached through `.into()`) keeps the bytes
+#[verifier::external_body]
+pub broadcast proof fn axiom_bytes_from_vec(v: Vec<u8>)
+    ensures bview(&#[trigger] <Bytes as vstd::std_specs::convert::FromSpec<Vec<u8>>>::from_spec(v)) == v@,
+{}
+#[verifier::external_body]
+pub broadcast proof fn axiom_bytes_from_vec_obeys()
+    ensures #[trigger] <Bytes as vstd::std_specs::convert::FromSpec<Vec<u8>>>::obeys_from_spec(),
+{}
+/// T7: no buffer is longer than the user address space of the platform (x86-64: 2^47 bytes)
+#[verifier::external_body]
+pub broadcast proof fn axiom_vec_len_bound(v: &Vec<u8>)
+    ensures #[trigger] v@.len() <= 0x8000_0000_0000,
+{}
+#[verifier::external_body]
+pub broadcast proof fn axiom_bm_len_bound(v: &BytesMut)
+    ensures #[trigger] bmview(v).len() <= 0x8000_0000_0000,
+{}
 /// T2: ordering of byte slices is lexicographic
 #[verifier::external_body]
 pub broadcast proof fn axiom_slice_ord(a: &[u8], b: &[u8])
@@ -127,7 +183,7 @@ pub broadcast proof fn axiom_ip6_len(a: std::net::Ipv6Addr)
 {}
 
 pub broadcast group group_trusted {
-    axiom_slice_eq, axiom_slice_obeys, axiom_slice_ord, axiom_slice_pord_obeys,
+    axiom_slice_eq, axiom_slice_obeys, axiom_slice_ext, axiom_bytes_from_vec, axiom_bytes_from_vec_obeys, axiom_vec_len_bound, axiom_bm_len_bound, axiom_arr_eq, axiom_arr_obeys, axiom_vec_eq, axiom_vec_obeys, axiom_string_str_eq, axiom_string_str_obeys, axiom_lossy_v4, axiom_slice_ord, axiom_slice_pord_obeys,
     axiom_vecu8_ord, axiom_vecu8_ord2, axiom_vecu8_borrow, axiom_vecu8_ext,
     axiom_contains_borrowed, axiom_maps_borrowed, axiom_removed_borrowed, axiom_vecu8_cmp,
     axiom_vec_ref, axiom_str_ref, axiom_vec_of, axiom_vec_from_str, axiom_vec_from_slice, axiom_vec_from_str_obeys, axiom_vec_from_slice_obeys, axiom_array_ref, axiom_bytes_of,
